@@ -8,6 +8,34 @@ import (
 	"math"
 )
 
+// compareIntFloat compares an int and a float by their numeric values, without
+// converting the int to a float (which rounds ints of magnitude above 2^53).
+// It returns -1 if i<f, 0 if i==f, 1 if i>f and 2 if f is NaN.
+func compareIntFloat(i Int, f Float) int {
+	x := float64(f)
+	switch {
+	case math.IsNaN(x):
+		return 2
+	case x >= 9223372036854775808.0: // 2^63 and above, +Inf
+		return -1
+	case x < -9223372036854775808.0: // below -2^63, -Inf
+		return 1
+	}
+	t := math.Trunc(x) // within the int64 range, the conversion is exact
+	ti := Int(int64(t))
+	switch {
+	case i < ti:
+		return -1
+	case i > ti:
+		return 1
+	case x > t:
+		return -1
+	case x < t:
+		return 1
+	}
+	return 0
+}
+
 // Equal does not cover lists and maps
 func Equal(fg *FunctionGenerator) OperationMatrix {
 	m := NewOperationMatrix(fg, "=")
@@ -24,10 +52,10 @@ func Equal(fg *FunctionGenerator) OperationMatrix {
 		return Bool(a.(Float) == b.(Float)), nil
 	})
 	m.Register(IntTypeId, FloatTypeId, func(_ funcGen.Stack[Value], a, b Value) (Value, error) {
-		return Bool(Float(a.(Int)) == b.(Float)), nil
+		return Bool(compareIntFloat(a.(Int), b.(Float)) == 0), nil
 	})
 	m.Register(FloatTypeId, IntTypeId, func(_ funcGen.Stack[Value], a, b Value) (Value, error) {
-		return Bool(a.(Float) == Float(b.(Int))), nil
+		return Bool(compareIntFloat(b.(Int), a.(Float)) == 0), nil
 	})
 	deepEqual := &operationMatrixDeepEqual{equal: m}
 	// the elements of lists and maps are compared deeply, too
@@ -91,10 +119,10 @@ func Less(fg *FunctionGenerator) OperationMatrix {
 		return Bool(a.(Float) < b.(Float)), nil
 	})
 	m.Register(IntTypeId, FloatTypeId, func(_ funcGen.Stack[Value], a, b Value) (Value, error) {
-		return Bool(Float(a.(Int)) < b.(Float)), nil
+		return Bool(compareIntFloat(a.(Int), b.(Float)) == -1), nil
 	})
 	m.Register(FloatTypeId, IntTypeId, func(_ funcGen.Stack[Value], a, b Value) (Value, error) {
-		return Bool(a.(Float) < Float(b.(Int))), nil
+		return Bool(compareIntFloat(b.(Int), a.(Float)) == 1), nil
 	})
 
 	fg.less = func(st funcGen.Stack[Value], a, b Value) (bool, error) {
